@@ -476,7 +476,6 @@ func (a *Alphabet) Single(c int) (byte, bool) {
 	return 0, false
 }
 
-
 // NewAlphabetGroups: every byte of `singles` is its own class; each group is one
 // class (minus singles); all remaining bytes form classes by the given default
 // ranges (low control bytes, other ASCII, high bytes).
